@@ -33,6 +33,21 @@ Theorem C12_accepted_ends : forall n s tau cancel close ds,
 Proof. exact accepted_ends_call. Qed.
 Print Assumptions C12_accepted_ends.
 
+(** for EVERY delivery stream — accepted or rejected datagrams in any order — and every instant at which the
+    context ends or the client is closed, the transmissions of a call are an initial segment of its schedule:
+    none is early, late, duplicated or added, whatever the reason the call ended *)
+Theorem C12_always_on_schedule : forall n s tau cancel close ds,
+  exists k, (k <= n)%nat /\ transmissions (run_call false n s tau cancel close ds) = sched k s tau.
+Proof. exact transmissions_on_schedule. Qed.
+Print Assumptions C12_always_on_schedule.
+
+(** a call on a client that is not closed fails with the no-response error only after all n transmissions *)
+Theorem C12_no_response_after_all_tries : forall n s tau cancel ds,
+  result (run_call false n s tau cancel None ds) = NoResponse ->
+  transmissions (run_call false n s tau cancel None ds) = sched n s tau.
+Proof. exact no_response_uses_all_tries. Qed.
+Print Assumptions C12_no_response_after_all_tries.
+
 (** the pinned tree (timer re-armed by every rejected datagram) violated the schedule: T = 50, n = 2,
     a rejected datagram every 20 ms gives transmissions at 0 and 4050 and failure at 4150 *)
 Theorem C12_refuted_on_pinned_code :
